@@ -136,6 +136,7 @@ pub fn run(sc: &Value) -> Value {
             std::fs::create_dir_all(&dest).unwrap();
             std::os::unix::fs::symlink("../out/sentinel", dest.join("existing")).unwrap();
             std::os::unix::fs::symlink("nowhere", dest.join("dangling")).unwrap();
+            std::os::unix::fs::symlink("../out", dest.join("p")).unwrap();
         }
         _ => {}
     }
